@@ -5,3 +5,4 @@ import Frequenz.Model.Matryoshka
 import Frequenz.Model.JsonUtil
 import Frequenz.Props.C03
 import Frequenz.Props.C04
+import Frequenz.Props.C11
